@@ -6,6 +6,7 @@ import (
 	"net"
 	"net/netip"
 	"strings"
+	"sync"
 
 	"github.com/facebookincubator/tacquito/cmds/server/config"
 	"verif/h/gen"
@@ -309,6 +310,62 @@ func runC13(b *mon.B) {
 			// ---- the same address on the full server
 			if full && ai%3 == 0 {
 				c13FullServer(b, r, caseNo, w, ref, ip, ai, verdict, want)
+			}
+		}
+		// ---- the same lookups asked at the same instant: every connection is bound by its own
+		// address, whatever other connections are being set up meanwhile
+		if ci%4 == 1 && len(addrs) > 1 {
+			caseNo++
+			if b.Want(caseNo) {
+				b.Eval(1)
+				b.Class("concurrent-lookups/scopes%s/%s", lenBucket(len(w.Scopes)), lists)
+				type res struct {
+					ip        net.IP
+					want, got int
+					verdict   string
+				}
+				var mu sync.Mutex
+				var bad []res
+				var wg sync.WaitGroup
+				gate := make(chan struct{})
+				nG := 8
+				for g := 0; g < nG; g++ {
+					wg.Add(1)
+					gr := r.Fork(uint64(5000 + g))
+					go func(g int) {
+						defer wg.Done()
+						<-gate
+						for k := 0; k < 24; k++ {
+							ip := addrs[gr.Intn(len(addrs))]
+							verdict, want, unj := w.evaluate(ip)
+							if unj {
+								continue
+							}
+							secret, handler, gerr := ref.Loader.Get(context.Background(), &net.TCPAddr{IP: ip, Port: 3000 + g})
+							got := -1
+							if gerr == nil && secret != nil && handler != nil {
+								if i, ok := keyScope[string(secret)]; ok {
+									got = i
+								} else {
+									got = -2
+								}
+							}
+							if got != want && !(want < 0 && got == -1) {
+								mu.Lock()
+								bad = append(bad, res{ip, want, got, verdict})
+								mu.Unlock()
+							}
+						}
+					}(g)
+				}
+				close(gate)
+				wg.Wait()
+				b.Count("concurrent_lookup_rounds", 1)
+				if len(bad) > 0 {
+					x := bad[0]
+					b.Violate(caseNo, "C13/concurrent-lookup-bound-to-another-address-scope", fmt.Sprintf("%d of %d lookups issued concurrently were bound wrongly; e.g. address %s (%s, scope index %d expected) got scope index %d", len(bad), nG*24, x.ip, x.verdict, x.want, x.got),
+						map[string]interface{}{"address": x.ip.String(), "expected_scope_index": x.want, "observed_scope_index": x.got, "deny": w.Deny, "allow": w.Allow})
+				}
 			}
 		}
 		ref.Close()
